@@ -113,6 +113,22 @@ impl H {
     async fn reg_mut(&mut self, #[zbus(object_server)] server: &zbus::ObjectServer) -> zbus::fdo::Result<bool> {
         server.at("/n4", Ping).await.map_err(|e| zbus::fdo::Error::Failed(e.to_string()))
     }
+    /// A handler removing the very interface it belongs to (the object goes away with the call).
+    async fn remove_self(&self, #[zbus(object_server)] server: &zbus::ObjectServer) -> zbus::fdo::Result<bool> {
+        server.remove::<H, _>("/h").await.map_err(|e| zbus::fdo::Error::Failed(e.to_string()))
+    }
+    async fn remove_self_mut(&mut self, #[zbus(object_server)] server: &zbus::ObjectServer) -> zbus::fdo::Result<bool> {
+        server.remove::<H, _>("/h").await.map_err(|e| zbus::fdo::Error::Failed(e.to_string()))
+    }
+    /// A `&mut self` handler looking up ANOTHER object's interface and calling into it.
+    async fn lookup_other_mut(&mut self, #[zbus(object_server)] server: &zbus::ObjectServer) -> zbus::fdo::Result<u32> {
+        let r = server
+            .interface::<_, Ping>("/n0")
+            .await
+            .map_err(|e| zbus::fdo::Error::Failed(e.to_string()))?;
+        let v = r.get().await.ping();
+        Ok(v)
+    }
     async fn emit(&self, #[zbus(signal_emitter)] e: zbus::object_server::SignalEmitter<'_>) -> zbus::fdo::Result<()> {
         Self::sig(&e, 7).await.map_err(|e| zbus::fdo::Error::Failed(e.to_string()))
     }
@@ -154,6 +170,8 @@ fn handler_calls(which: &'static str) -> ExecResult {
                 .internal_executor(false)
                 .serve_at("/h", H)
                 .unwrap()
+                .serve_at("/n0", Ping)
+                .unwrap()
                 .build()
                 .await
                 .unwrap()
@@ -178,6 +196,13 @@ fn handler_calls(which: &'static str) -> ExecResult {
         "method-registers-then-removes" => vec![mc("Reg"), mc("Unreg")],
         "mut-method-registers-object" => vec![mc("RegMut")],
         "method-emits-signal" => vec![mc("Emit")],
+        "method-removes-own-interface" => vec![mc("RemoveSelf")],
+        "mut-method-removes-own-interface" => vec![mc("RemoveSelfMut")],
+        "mut-method-looks-up-other-interface" => vec![mc("LookupOtherMut")],
+        "mut-method-removes-own-then-register-elsewhere" => vec![mc("RemoveSelfMut"), {
+            // a later registration through another object must still work (the root lock is free)
+            zbus::Message::method_call("/n0", "Ping").unwrap().interface("x.y.I").unwrap().build(&()).unwrap()
+        }],
         "property-getter-registers-object" => vec![prop("Get").build(&("a.b.H", "Pget")).unwrap()],
         "property-setter-registers-object" => vec![prop("Set").build(&("a.b.H", "Pset", Value::from(5u32))).unwrap()],
         "getall-getter-registers-object" => vec![prop("GetAll").build(&("a.b.H",)).unwrap()],
@@ -235,7 +260,11 @@ fn handler_calls(which: &'static str) -> ExecResult {
     res
 }
 
-const HANDLER_SCENARIOS: [&str; 7] = [
+const HANDLER_SCENARIOS: [&str; 11] = [
+    "method-removes-own-interface",
+    "mut-method-removes-own-interface",
+    "mut-method-looks-up-other-interface",
+    "mut-method-removes-own-then-register-elsewhere",
     "method-registers-object",
     "method-registers-then-removes",
     "mut-method-registers-object",
@@ -264,15 +293,7 @@ pub fn main(args: &Args) -> i32 {
         time_budget_s: args.tier.pick(20.0, 200.0),
     };
     run_scenario(&report, &totals, "on-demand", json!({}), &plan, on_demand);
-    for which in [
-        "method-registers-object",
-        "method-registers-then-removes",
-        "mut-method-registers-object",
-        "method-emits-signal",
-        "property-getter-registers-object",
-        "property-setter-registers-object",
-        "getall-getter-registers-object",
-    ] {
+    for which in HANDLER_SCENARIOS {
         run_scenario(&report, &totals, which, json!({"handler": which}), &plan, move || handler_calls(which));
     }
     report.assume("interleaving granularity is one task poll; handlers run on the connection's own executor (single thread)");
